@@ -316,7 +316,8 @@ def read(text, version="2.1"):
 OBJ_TYPES = ["file", "ipv4-addr", "network-traffic", "process", "x-custom", "domain-name", "email-message", "user-account"]
 PROPS = ["name", "value", "size", "pid", "dst_port", "src_port", "protocols", "is_hidden", "created", "extensions", "x_prop", "body_multipart",
          "command_line", "subject", "account_login", "mime_type"]
-KEYS = ["windows-pebinary-ext", "sections", "entropy", "a b", "it's", "x-y", "body", "n1", "back\\slash"]
+KEYS = ["windows-pebinary-ext", "sections", "entropy", "a b", "it's", "x-y", "body", "n1", "back\\slash",
+        "größe", "ключ", "名前", "m²", "sınıf", "*", "0", "1x", "'tis", "'q'", "q'"]      # word characters outside ASCII, and steps that look like indices, must stay quoted
 STRS = ["foo", "foo.exe", "198.51.100.1", "it's", "back\\slash", "a%b_c", "^\\d+$", "", " ", "üñí", "\U0001f600", "tab\there", "-", "x' OR 'y", "1", "true"]
 
 
@@ -329,7 +330,9 @@ def gen_path(rng, simple=False):
             if r < 0.55:
                 steps.append(("k", rng.choice(PROPS + KEYS)))
             elif r < 0.8:
-                if steps[-1][0] == "i":      # the object model has one index per step
+                if steps[-1][0] == "i" and rng.random() < 0.9:
+                    # the object model has one index per step: consecutive indices ([0][1]) are valid text it cannot hold
+                    # (recorded finding consecutive-index-steps-unmodelled), so they are generated rarely
                     continue
                 steps.append(("i", rng.choice([0, 1, 2, 10, "*"])))
             else:
@@ -350,7 +353,7 @@ def gen_const(rng, kinds=("str", "int", "float", "bool", "hex", "bin", "ts")):
     if k == "bool":
         return ("bool", rng.random() < 0.5)
     if k == "hex":
-        return ("hex", rng.choice(["ff", "00ab", "deadbeef", "0a"]))
+        return ("hex", rng.choice(["ff", "00ab", "deadbeef", "0a", ""]))          # h'' is in the grammar
     if k == "bin":
         return ("bin", rng.choice(["AQID", "aGVsbG8=", "AA=="]))
     us = tsor.text_us(rng.choice(["2020-01-01T00:00:00Z", "2016-06-01T12:30:45Z", "1999-12-31T23:59:59Z"])) + rng.choice([0, 0, 500000, 123000, 1])
